@@ -7,8 +7,4 @@ CONSTANTS
   LimMode = "all"
   Firsts = {"lo", "up", "sl", "nu", "d2", "d3", "iv"}
   Sample = FALSE
-INVARIANT OwnContentFindsIt
-INVARIANT NoUnproducibleToken
-INVARIANT RenderLexRoundTrip
-INVARIANT LowerShortcutSound
-INVARIANT Emit
+INVARIANT CheckAndEmit
